@@ -70,14 +70,21 @@ def check_n(res, n, rng, reps):
 
     def loc():
         return sum((float(Fraction(int(rng.integers(-12, 13)), 4)) * e for e in E), zero)
-    for _ in range(reps):
-        for k in range(0, n + 1):
-            Ed = direction(k)
-            if Ed is None:
-                continue
-            p = loc()
-            # radii: ordinary ones and exactly representable small ones (rho^2 E^2 far below 1e-8, far above the library's 1e-12 zero tolerance)
-            rho = float(rng.choice([0.5, 1.0, 1.5, 2.0, 3.0, 2.0 ** -14, 2.0 ** -15, 2.0 ** -10]))
+    def plan():
+        if n == 4:
+            # repaired defect 17, deterministically: a large direction 2-blade with a small radius (rounding residue above the absolute eps)
+            Ef = 48.0 * (E[0] ^ E[1]) + 24.0 * (E[0] ^ E[2]) - 12.0 * (E[0] ^ E[3]) + 24.0 * (E[1] ^ E[2]) + 36.0 * (E[1] ^ E[3]) + 24.0 * (E[2] ^ E[3])
+            yield 2, Ef, -0.5 * E[0] + 0.25 * E[1] + 2.75 * E[2] - 1.75 * E[3], 2.0 ** -10
+        for _ in range(reps):
+            for k_ in range(0, n + 1):
+                Ed_ = direction(k_)
+                if Ed_ is None:
+                    continue
+                p_ = loc()
+                # radii: ordinary ones and exactly representable small ones (rho^2 E^2 far below 1e-8, far above the library's 1e-12 zero tolerance)
+                yield k_, Ed_, p_, float(rng.choice([0.5, 1.0, 1.5, 2.0, 3.0, 2.0 ** -14, 2.0 ** -15, 2.0 ** -10]))
+    for k, Ed, p, rho in plan():
+        if True:
             cases = [('Direction', lambda: cl.Direction(Ed), {}),
                      ('Tangent', lambda: cl.Tangent(Ed, p), dict(location=p)),
                      ('Round', lambda: cl.Round(Ed, p, rho), dict(location=p, radius=rho)),
